@@ -1,6 +1,6 @@
 SPECIFICATION Spec
 CONSTANTS
   Family = "form"
-  MaxDepth = 2
+  MaxDepth = 3
   FullOps = "reps"
 INVARIANTS SpineOK FullOK Emit
